@@ -656,6 +656,9 @@ func (e *specEnv) binary(op token.Token, a, b Val) Val {
 	if isBool(a.Ty) {
 		sfail("unsupported boolean operator %v", op)
 	}
+	if isString(a.Ty) && isString(b.Ty) && op == token.ADD {
+		return Val{T: app("sconcat", a.T, b.T), Ty: types.Typ[types.String]}
+	}
 	if !isInt(a.Ty) || !isInt(b.Ty) {
 		sfail("operator %v on non-integers (%v, %v)", op, a.Ty, b.Ty)
 	}
@@ -770,6 +773,9 @@ func (e *specEnv) call(x *ast.CallExpr, sg *SGo) Val {
 	case "held":
 		v := arg(0)
 		return Val{T: sel(tr.C.hget(e.heap, tr.C.heldKey()), v.T), Ty: tBool}
+	case "released": // ghost: number of Unlock calls on a mutex so far
+		v := arg(0)
+		return Val{T: sel(tr.C.hget(e.heap, tr.C.relKey()), v.T), Ty: tInt}
 	case "ite":
 		c, a, b := arg(0), arg(1), arg(2)
 		a, b = e.unify(a, b)
@@ -857,6 +863,26 @@ func (e *specEnv) call(x *ast.CallExpr, sg *SGo) Val {
 			return Val{T: fn, Ty: rt}
 		}
 		return Val{T: app(fn, args...), Ty: rt}
+	}
+	// a Go function or method, evaluated as a pure term
+	if fobj, recv := e.resolveGoFunc(x.Fun, sg); fobj != nil {
+		fn := tr.G.prog.FuncValue(fobj)
+		if fn == nil {
+			sfail("no SSA for %s", fobj.FullName())
+		}
+		var args []Val
+		if recv != nil {
+			args = append(args, *recv)
+		}
+		sig := fobj.Type().(*types.Signature)
+		for i := range x.Args {
+			a := arg(i)
+			if i < sig.Params().Len() {
+				a = e.coerce(a, sig.Params().At(i).Type())
+			}
+			args = append(args, a)
+		}
+		return e.goCall(fn, args)
 	}
 	sfail("unknown function %s in spec", exprString(x.Fun))
 	return Val{}
